@@ -158,7 +158,7 @@ def m_index_usize(ex, st, callee, args, dty, m):
     raise Unsupported("index on non-ref")
 
 
-@model(r"<Vec<.*> as Deref(?:Mut)?>::deref(?:_mut)?$|Vec::<.*>::as_slice$|Vec::<.*>::as_mut_slice$|<Vec<.*> as AsRef<\[.*\]>>::as_ref$|<\[.*\] as AsRef<\[.*\]>>::as_ref$|<\[u8; \d+\]>::as_slice$|core::array::<impl \[.*; \d+\]>::as_slice$|<String as Deref>::deref$|String::as_bytes$|str::as_bytes$")
+@model(r"<Vec<.*> as Deref(?:Mut)?>::deref(?:_mut)?$|Vec::<.*>::as_slice$|Vec::<.*>::as_mut_slice$|<Vec<.*> as AsRef<\[.*\]>>::as_ref$|<\[.*\] as AsRef<\[.*\]>>::as_ref$|<\[u8; \d+\]>::as_slice$|(?:core|std)::array::<impl \[.*; \d+\]>::as_slice$|<String as Deref>::deref$|String::as_bytes$|str::as_bytes$")
 def m_as_slice(ex, st, callee, args, dty, m):
     return args[0]
 
@@ -205,13 +205,16 @@ def enum_is(ex, v, variant):
     """z3 Bool: enum value `v` is `variant`"""
     if v.variant is not None:
         return z3.BoolVal(v.variant == variant)
+    if variant in ("None", "Some", "Ok", "Err", "Continue", "Break") and ex.type_base(v.ty or "") in ("Option", "Result", "ControlFlow", ""):
+        return (v.discr.bv == 0) if variant in ("None", "Ok", "Continue") else (v.discr.bv != 0)
     vs = ex.variants_of(v.ty) or []
     for name, d in vs:
         if name == variant:
             return v.discr.bv == bv(d, v.discr.width)
     std = {"None": 0, "Some": 1, "Ok": 0, "Err": 1, "Continue": 0, "Break": 1}
     if variant in std:
-        return v.discr.bv == bv(std[variant], v.discr.width)
+        # two-variant std enums: the discriminant is 0 or "not 0"
+        return (v.discr.bv == 0) if std[variant] == 0 else (v.discr.bv != 0)
     raise Unsupported("variant test %s on %s" % (variant, v.ty))
 
 
@@ -639,3 +642,98 @@ def m_map_len(ex, st, callee, args, dty, m):
     for p, ek, ev in mv.entries:
         total = total + z3.If(p, bv(1, 64), bv(0, 64))
     return I(z3.simplify(total))
+
+
+@model(r"(?:std|core)::slice::<impl \[(.*)\]>::get::<usize>$|Vec::<(.*)>::get::<usize>$")
+def m_slice_get(ex, st, callee, args, dty, m):
+    base_ref = args[0]
+    base = deref(ex, base_ref)
+    idx = args[1]
+    ln = length_of(ex, base)
+    ok = z3.ULT(idx.bv, ln.bv)
+    c, p = base_ref.cell, base_ref.path
+    vv = ex.get_path(c, p)
+    while isinstance(vv, Ref):
+        c, p = vv.cell, vv.path
+        vv = ex.get_path(c, p)
+    if isinstance(base, Seq) and not is_concrete(idx):
+        outs = [(idx.bv == i, mk_some(dty, Ref(c, p + (("i", u64(i)),)))) for i in range(len(base.items))]
+        outs.append((z3.Not(ok), mk_none(dty)))
+        return ("__fork__", outs)
+    return ("__fork__", [(ok, mk_some(dty, Ref(c, p + (("i", idx),)))), (z3.Not(ok), mk_none(dty))])
+
+
+@model(r"Option::<.*>::(and_then|map)::<.*>$")
+def m_option_and_then(ex, st, callee, args, dty, m):
+    v = as_enum(ex, args[0], "Option")
+    body = ex.closure_body(args[1])
+    if body is None:
+        return NotImplemented
+    if m.group(1) == "map":
+        return NotImplemented
+    x = lambda: payload(ex, v, "Some")
+    if v.variant is not None:
+        if v.variant == "Some":
+            return ("__inline__", body, [args[1], x()])
+        return mk_none(dty)
+    return ("__fork__", [(enum_is(ex, v, "Some"), ("__inline__", body, [args[1], x()])), (enum_is(ex, v, "None"), mk_none(dty))])
+
+
+@model(r"(?:std|core)::slice::<impl \[&\[u8\]\]>::concat::<u8>$|(?:std|core)::slice::<impl \[Vec<u8>\]>::concat::<u8>$|<\[.*\] as Concat<u8>>::concat$")
+def m_concat(ex, st, callee, args, dty, m):
+    seq = deref(ex, args[0])
+    if not isinstance(seq, Seq):
+        raise Unsupported("concat of %s" % type(seq).__name__)
+    parts = [deref(ex, p) for p in seq.items]
+    if not all(isinstance(p, Bytes) for p in parts):
+        raise Unsupported("concat of non-byte parts")
+    k = z3.BitVec("ck!%d" % next(ex.fresh_counter), 64)
+    total = bv(0, 64)
+    expr = bv(0, 8)
+    offs = []
+    for p in parts:
+        offs.append(total)
+        total = z3.simplify(total + p.len.bv)
+    # build nested ite from the last part backwards
+    for p, off in reversed(list(zip(parts, offs))):
+        expr = z3.If(z3.ULT(k, z3.simplify(off + p.len.bv)), z3.Select(p.arr, k - off), expr)
+    return Bytes(I(total), z3.Lambda([k], expr))
+
+
+@model(r"<(\w+) as (?:num_traits::)?ToPrimitive>::to_(u8|u32|u64|i64)$")
+def m_to_primitive(ex, st, callee, args, dty, m):
+    e = deref(ex, args[0])
+    if not isinstance(e, EnumV):
+        return NotImplemented
+    d = ex.discr_of(e)
+    d = d if isinstance(d, I) else I(bv(d, 64), True)
+    return mk_some(dty, ex.cast_int(d, m.group(2)))
+
+
+@model(r"<(\w+) as (?:num_traits::)?FromPrimitive>::from_(u8|u32|u64|i64)$|^(?:num_traits::)?FromPrimitive::from_(u8)$")
+def m_from_primitive(ex, st, callee, args, dty, m):
+    ty = m.group(1)
+    if ty is None:
+        mm = re.search(r"Option<(?:\w+::)*(\w+)>", dty or "")
+        ty = mm.group(1) if mm else None
+    vs = ex.variants_of(ty or "")
+    if not vs or ty in ("Option", "Result"):
+        return NotImplemented
+    x = args[0]
+    outs = []
+    for name, d in vs:
+        outs.append((x.bv == bv(d, x.width), mk_some(dty, EnumV(ty, name, None, {name: Agg("variant", name, [])}))))
+    outs.append((z3.And(*[x.bv != bv(d, x.width) for _, d in vs]), mk_none(dty)))
+    return ("__fork__", outs)
+
+
+@model(r"Vec::<u8>::extend::<.*>$|Vec::<u8>::extend_from_slice$|<Vec<u8> as Extend<&u8>>::extend::<.*>$|<Vec<u8> as Extend<u8>>::extend::<.*>$")
+def m_vec_extend(ex, st, callee, args, dty, m):
+    v = deref(ex, args[0])
+    o = deref(ex, args[1])
+    if not (isinstance(v, Bytes) and isinstance(o, Bytes)):
+        return NotImplemented
+    k = z3.BitVec("ek!%d" % next(ex.fresh_counter), 64)
+    v.arr = z3.Lambda([k], z3.If(z3.ULT(k, v.len.bv), z3.Select(v.arr, k), z3.Select(o.arr, k - v.len.bv)))
+    v.len = I(z3.simplify(v.len.bv + o.len.bv))
+    return UNIT
